@@ -42,8 +42,9 @@ def run_lattice(case) -> dict:
     """["lattice", hash, source, l1p, l2p, omit_l2]  source: "dc" | "rootkey"."""
     from dpapi_ng._blob import KeyIdentifier
 
-    _, hash_name, source, l1p, l2p, omit = case
-    rk = offline.synth_root_key(77, hash_name, "DH")
+    _, hash_name, source, l1p, l2p, omit = case[:6]
+    edges = case[6] if len(case) > 6 else None
+    rk = offline.synth_root_key(77, hash_name, "DH", {"key_edges": edges} if edges else None)
     chain = cms.chain_for(rk, SD, L0)
     probes: t.Dict[str, int] = {}
     if source == "dc":
@@ -101,6 +102,8 @@ def run_lattice(case) -> dict:
                         break
             if viol:
                 break
+    if edges:
+        probes["root_key_with_odd_edge_bytes"] = 1
     return {"viol": viol, "digest": hashlib.sha256(repr((case, evals)).encode()).hexdigest()[:12], "keys": [common.key_hash(k) for k in keys], "evals": evals,
             "fired": {"envelope_via_rpc": int(source == "dc")}, "probes": probes, "vtime_ns": 0}
 
@@ -212,7 +215,7 @@ class C02(common.Check):
                   "transport": "simulated; 'DC unreachable' = partition"}
     assumptions = ["the lattice sweep is enumeration of workload parameters through a two-step simulated history; simulation-specific: envelope via RPC, partition, Byzantine reply"]
     required_fired = ("cover_same", "cover_same-l1", "cover_l1-1", "cover_lower", "noncover", "shape_l2_omitted", "shape_l1_absent", "history_cover",
-                      "history_noncover", "byzantine_reply", "root_key_reloaded_with_other_parameters")
+                      "history_noncover", "byzantine_reply", "root_key_reloaded_with_other_parameters", "root_key_with_odd_edge_bytes")
 
     def exhaustive(self, tier):
         return tier == "thorough"
@@ -234,6 +237,9 @@ class C02(common.Check):
                     out.append(["lattice", h, "dc", a, b_, omit])
             out.append(["lattice", h, "rootkey", 31, 31, 0])
             out.append(["lattice", h, "rootkey", 31, 31, 1])  # ... after the same key id was used with other parameters
+            for edges in ([0x20, 0x0A], [0x09, 0x41], [0x42, 0x0D], [0x00, 0x00], [0x0B, 0x0C]):
+                out.append(["lattice", h, "rootkey", 31, 31, 0, edges])
+                out.append(["lattice", h, "dc", 7, 31 if edges[0] % 2 else 9, 0, edges])
         n_hist = 1200 if tier == "quick" else 40000
         for i in range(n_hist):
             out.append(gen_history(rng, i))
@@ -256,7 +262,7 @@ class C02(common.Check):
 
     def sample_repr(self, case, res):
         if isinstance(case, list):
-            return dict(zip(("kind", "hash", "seed_source", "l1'", "l2'", "l2_key_omitted"), case))
+            return dict(zip(("kind", "hash", "seed_source", "l1'", "l2'", "l2_key_omitted", "root_key_first_last_byte"), case))
         return {"kind": case["kind"], "seed_position": case.get("seedpos"), "byz": case["dc"].get("byz"),
                 "ops": [(o["op"], o.get("net"), (o.get("blob") or {}).get("pos")) for o in case["ops"]]}
 
